@@ -27,7 +27,7 @@ def routesRef (cfg : Cfg) : Nat → Pipeline → List (List Node × Node)
   | k + 1, p =>
     (dedup p.exps).flatMap (fun e =>
       if cfg.isConn e then
-        (nextPipes cfg p e).flatMap (fun q =>
+        ((nextPipes cfg p e).filter (fun q => cfg.selects e q.id.name)).flatMap (fun q =>
           (routesRef cfg k q).map (fun te => (procNodes p ++ [Node.conn p.id.sig q.id.sig e] ++ te.1, te.2)))
       else [(procNodes p, Node.exp p.id.sig e)])
 
@@ -83,6 +83,12 @@ def handler : Handler S where
       match i.toNat?, parsePairs pairs with
       | some i, some ps => ({ s with cfg := { s.cfg with conns := s.cfg.conns ++ [{ id := i, supp := ps }] } }, [])
       | _, _ => (s, ["obs bad-op"])
+    | ["conn", i, pairs, sel] =>
+      -- `sel=<names|->`: a connector that uses the router API and delivers only to next pipelines with these names
+      match i.toNat?, parsePairs pairs, (if sel.startsWith "sel=" then parseIds ((sel.drop 4).toString) else none) with
+      | some i, some ps, some names =>
+        ({ s with cfg := { s.cfg with conns := s.cfg.conns ++ [{ id := i, supp := ps, sel := some names }] } }, [])
+      | _, _, _ => (s, ["obs bad-op"])
     | ["pipe", sg, name, r, p, e] =>
       match sg.toNat?.bind Sig.ofNat?, name.toNat?, parseIds r, parseIds p, parseIds e with
       | some sg, some name, some r, some p, some e =>
@@ -95,7 +101,7 @@ def handler : Handler S where
       (s, [if errs.isEmpty then "obs validate ok" else "obs validate err=" ++ ",".intercalate errs])
     | ["build"] =>
       let b := build s.cfg
-      let s := { s with built := some b, es := some (edges s.cfg) }
+      let s := { s with built := some b, es := some (flowEdges s.cfg) }
       match b with
       | some .connector => (s, ["obs build err=connector"])
       | some .cycle => (s, ["obs build err=cycle"])
@@ -106,7 +112,7 @@ def handler : Handler S where
       match sg.toNat?.bind Sig.ofNat?, i.toNat? with
       | some sg, some i =>
         let s := { s with pendingInject := some (sg, i) }
-        let es := s.es.getD (edges s.cfg)
+        let es := s.es.getD (flowEdges s.cfg)
         match deliver (succOf es) (es.length + 2) (Node.recv sg i) with
         | some ws =>
           let toks := sortStr (ws.map walkTok)
